@@ -409,6 +409,8 @@ def run(ctx: Ctx) -> None:
     rule_simplify_member(ctx)
     for rel_, cname_ in hooks.COMPILERS:
         hooks.rule_qindex(ctx, rel_, cname_, hooks.HOOKS)   # "the same unitary in both backends" includes the same qubit: positions come from q_index
+    from .c07 import rule_wrappers
+    rule_wrappers(ctx)   # the mixed-stabilizer gate methods (used whenever noise simulation is on) agree with the pure ones
     gatesum.rule_derived_gates(ctx)  # both backends must realise each elementary gate: the stabilizer side's derived gates
     from ..rules import memo as _memo
     _memo.rule_memo_sound(ctx, ['graphiq/circuit/ops.py', 'graphiq/backends/density_matrix/functions.py'])
